@@ -17,7 +17,10 @@ Judge(k) ==
   IN IF ~(Accepts(e) /\ HasDoc(e)) THEN <<>>
      ELSE LET d == Denote(x)
               gs == SelectSeq(Trace[k].o, LAMBDA g : g.r = 1 /\ ~Matches(d, g.v))
+              \* a valid text for which a front-end hands out no value at all (error or panic) has lost every digit and character
+              ns == SelectSeq(Trace[k].o, LAMBDA g : g.r # 1)
           IN [j \in 1..Len(gs) |-> [i |-> k, as |-> gs[j].as, kind |-> "wrong-value", loc |-> Blame(d, gs[j].v)]]
+             \o [j \in 1..Len(ns) |-> [i |-> k, as |-> ns[j].as, kind |-> "no-value", loc |-> <<d.t, IF ns[j].r = 2 THEN "panic" ELSE "error">>]]
 Judged(k) == LET e == RunSeq(S0, Trace[k].b) IN IF Accepts(e) /\ HasDoc(e) THEN 1 ELSE 0
 
 CheckCase == /\ c <= N
